@@ -269,7 +269,9 @@ class UnitSystemManager(Singleton):
                 # an empty unit system.
                 units_mapping = {}
 
-        unit_system = self._default_unit_system_class(id, caption, units_mapping, read_only)
+        # Note: each unit system has its own mapping (changing the default unit of one unit system
+        # must not change another one which was created from the same dict).
+        unit_system = self._default_unit_system_class(id, caption, dict(units_mapping), read_only)
         self._unit_systems[id] = unit_system
 
         if self._current is None:
